@@ -48,11 +48,12 @@ def roundtrip(e, rng):
         return ("equal", 1, s) if compare.close(a, b, True) else ("different", {"left": str(a), "right": str(b)}, s)
     if sympy.sympify(e) == sympy.sympify(e2):
         return "equal", "structural", s
-    v, d = compare.sem_equal_real(e, e2, rng, k=4)
+    # floats are kept to 15 digits; sums of large terms of opposite sign amplify that: compare to 1e-9 of the result
+    v, d = compare.sem_equal_real(e, e2, rng, k=4, tol=Fraction(1, 10**9))
     if v == "different" and compare.has_float(e) and sympy.sympify(e).has(sympy.Mod, sympy.floor, sympy.ceiling, sympy.frac):
         # a float kept to 15 digits can legitimately move a value across a jump of floor/Mod: not decidable numerically
         return "undecided", "float under a discontinuous function", s
-    if v == "undecided":
+    if v == "undecided" and not sympy.sympify(e).has(sympy.Sum, sympy.Product):
         # numeric fallback for fractional powers etc.: positive real points, floating point
         try:
             syms = sorted(sympy.sympify(e).free_symbols | sympy.sympify(e2).free_symbols, key=str)
@@ -87,6 +88,9 @@ def oracle(case, res, extra):
         for path, node in walk(t):
             es = [r.value for r in node.resources.values()] + [p.size for p in node.ports.values()] + [x for c in node.constraints for x in (c.lhs, c.rhs)]
             for e in es:
+                if not isinstance(e, (int, float)) and e.has(__import__("sympy").nan, __import__("sympy").zoo, __import__("sympy").oo):
+                    res.stats["not_real_valued_skipped"] += 1     # the property speaks of real-valued expressions
+                    continue
                 v, d, s = roundtrip(e, rng)
                 res.stats["expressions_roundtripped"] += 1
                 res.stats["verdict_" + v] += 1
@@ -114,7 +118,8 @@ def gen_sympy(rng, depth):
             return sympy.Rational(rng.randint(-7, 9), rng.choice([2, 3, 5, 7]))
         if r < 0.96:
             return rng.choice([sympy.pi, sympy.E])
-        return sympy.Float(rng.choice([0.1, 1.5, 2.25, 1e-7, 123456.789, 3.14159265358979, 1 / 3, 2e20, 0.30000000000000004]))
+        # floats with at most 15 significant digits (what the printer keeps); longer ones are checked alone in literal_precision()
+        return sympy.Float(rng.choice([0.1, 1.5, 2.25, 1e-7, 123456.789, 3.14159265358979, 0.333333333333333, 2e20, 0.3]))
     r = rng.random()
     a = gen_sympy(rng, depth - 1)
     if r < 0.2:
@@ -142,23 +147,59 @@ def gen_sympy(rng, depth):
     return rng.choice([sympy.Sum, sympy.Product])(body, (it, 0, rng.choice([sympy.Symbol("N") - 1, sympy.Integer(4), sympy.Symbol("k")])))
 
 
+def literal_precision(ctx):
+    """numeric literals are kept to 15 significant digits: a float alone survives the round trip with relative error <= 5e-15"""
+    import math
+    import sympy
+
+    for x in [1 / 3, 0.1 + 0.2, math.pi, math.e * 1e-9, 2 / 3 * 1e17, 1e-300 / 7, 123456789.123456789, 5e-324 * 1e10]:
+        e = sympy.Float(x)
+        s = B.serialize(e)
+        with warnings.catch_warnings():
+            warnings.simplefilter("ignore")
+            back = B.as_expression(s)
+        ctx.stats["evaluations"] += 1
+        got = float(back)
+        if x != 0 and abs(got - x) > 5e-15 * abs(x):
+            ctx.violation("failing-input", f"float literal {x!r} is not kept to 15 significant digits", {"expression_srepr": sympy.srepr(e), "printed": s}, got, x)
+            return
+        ctx.nontrivial("literal:" + s)
+
+
 def generated(ctx):
     import sympy
 
     rng = ctx.rng
     n = ctx.n(2500, 50000)
     texts = []
+    import signal
+
+    class _Slow(BaseException):   # must not be swallowed by the `except Exception` fallbacks inside roundtrip
+        pass
+
+    def _alarm(signum, frame):
+        raise _Slow()
+
+    signal.signal(signal.SIGALRM, _alarm)
     for i in range(n):
+        signal.alarm(2)
         try:
             e = gen_sympy(rng, rng.randint(1, 4))
             if len(str(e)) > 300 or any(a.is_Integer and abs(a) > 10**30 for a in sympy.preorder_traversal(e)):
                 continue
+            if e.has(sympy.nan, sympy.zoo, sympy.oo, sympy.I, sympy.re, sympy.im, sympy.arg):
+                continue    # complex decompositions introduced by sympy (Abs of a symbolic power) are not real-valued expressions of bartiq
+            if any(a.is_Float and a != 0 and not (1e-200 < abs(a) < 1e200) for a in sympy.preorder_traversal(e)):
+                continue    # floats beyond the double range cannot be compared
+            ctx.stats["evaluations"] += 1
+            v, d, s = roundtrip(e, rng)
+        except _Slow:
+            ctx.stats["generated_skipped_slow"] += 1   # e.g. products with symbolic limits that sympy tries to evaluate numerically
+            continue
         except Exception:
             continue
-        if e.has(sympy.nan, sympy.zoo, sympy.oo, sympy.I) or not e.is_real in (True, None) and False:
-            continue
-        ctx.stats["evaluations"] += 1
-        v, d, s = roundtrip(e, rng)
+        finally:
+            signal.alarm(0)
         ctx.stats["generated_verdict_" + v] += 1
         if v in ("different", "error"):
             ctx.violation("failing-input", f"generated expression does not survive serialize->parse: {d}", {"expression_srepr": sympy.srepr(e), "printed": s}, s, str(e))
@@ -187,6 +228,8 @@ def generated(ctx):
         if isinstance(e2, (int, float)):
             continue
         v, d = compare.sem_equal(e2, mt, rng)
+        if v == "different" and compare.has_float(e2) and e2.has(sympy.Mod, sympy.floor, sympy.ceiling, sympy.frac):
+            continue    # a binary float and its exact decimal reading can sit on different sides of a jump
         if v == "different":
             ctx.disagreement("Lean parse of the printed text (value)", {"printed": s}, E.to_str_full(mt)[:300], {"impl": str(e2), "at": d})
 
@@ -197,6 +240,7 @@ def run(ctx, widen=False):
                 "objects to depth 4 over 14 name shapes, integers, rationals, floats, pi, E, powers (negative, fractional, symbolic, nested), Max/Min/floor/ceiling/Abs/"
                 "Mod/log2/gamma/log/sqrt/exp, uninterpreted calls, Sum/Product; non-trivial = distinct printed text containing a power, a Sum/Product or a reserved / "
                 "port name")
+    literal_precision(ctx)
     generated(ctx)
     if ctx.violations:
         return
